@@ -1,4 +1,5 @@
 import GlyProofs.Front.WalkDen
+import GlyModel.Api.Query
 import GlyProofs.Front.CreateLemmas
 /-
   C16 — Structural queries agree with the structure. (Property theorems only.)
@@ -49,17 +50,7 @@ theorem C16_leaves_le_size (F : GF) : leaves F ≤ F.size := by
 
 /-! ### Node matchers of `count` (glycan.py: recipe_equality) -/
 
-open Gly.Model in
-/-- `no=True`: the first SAC entries of the two recipes are equal. -/
-def matchBasic (g q : Recipe) : Bool :=
-  match firstOfType g Gen.frontCfg.tSAC, firstOfType q Gen.frontCfg.tSAC with
-  | some a, some b => a == b
-  | _, _ => false
-
-/-- `some=True`: every entry of the query's recipe occurs in the glycan residue's recipe. -/
-def matchSome (g q : Recipe) : Bool := q.all (fun x => g.contains x)
-
-def sacCount (r : Recipe) : Nat := r.countP (fun x => x.2 == Gen.frontCfg.tSAC)
+open Gly.Query
 
 open Gly.Model in
 theorem firstOfType_mem (r : Recipe) (ty : Nat) (v : List Char) (h : firstOfType r ty = some v) : (v, ty) ∈ r := by
